@@ -56,6 +56,20 @@ def updater(pio, updates, fmt):
             except stages.InjectedFault:
                 pass
             continue
+        if value == "abort-write":
+            # an update whose write-back fails (disk full) before anything is written: as if it had never happened
+            def _failing_write(*a, **k):
+                raise stages.InjectedOSError(28, "No space left on device (injected)")
+
+            pio.write_image = _failing_write
+            try:
+                with pio.update_image(Pos(*pos), masked_mode=ImageMode.F32, default="masked", format=fmt) as basis:
+                    Image.from_array(np.full((y1 - y0, x1 - x0), 9.0, dtype=np.float32)).update_into_maskable_buffer(basis, slice(0, y1 - y0), slice(0, x1 - x0), slice(y0, y1), slice(x0, x1))
+            except stages.InjectedOSError:
+                pass
+            finally:
+                del pio.write_image
+            continue
         if value is None:
             # a contribution that defines no pixel at all (an input that is undefined over this tile)
             src = Image.from_array(np.full((y1 - y0, x1 - x0), np.nan, dtype=np.float32))
@@ -83,7 +97,7 @@ def serial_results(procs):
             if idx[k] < len(s):
                 pos, (y0, y1, x0, x1), value = s[idx[k]]
                 t2 = {p: t.copy() for p, t in tiles.items()}
-                if value == "abort":
+                if value in ("abort", "abort-write"):
                     rec(idx[:k] + (idx[k] + 1,) + idx[k + 1 :], t2)
                     continue
                 t = t2.setdefault(tuple(pos), np.full((256, 256), np.nan, dtype=np.float32))
@@ -180,7 +194,7 @@ class UpdateHarness(Harness):
             missing = []
             for ups in self._all():
                 for pos, (y0, y1, x0, x1), value in ups:
-                    if value is None or value == "abort":
+                    if value is None or value in ("abort", "abort-write"):
                         continue
                     if isinstance(value, str):
                         value = float(value.split(":")[1])
@@ -232,6 +246,7 @@ def configs(tier):
     cfgs += [
         UpdateHarness("2-one-aborts", [[(T0, R["left"], 1.0)], [(T0, R["right"], "abort")]]),
         UpdateHarness("3-one-aborts", [[(T0, R["left"], 1.0)], [(T0, R["mid"], "abort")], [(T0, R["top"], 3.0)]]),
+        UpdateHarness("3-one-write-fails", [[(T0, R["left"], 1.0)], [(T0, R["mid"], "abort-write")], [(T0, R["top"], 3.0)]]),
         UpdateHarness("2-abort-then-update", [[(T1, R["left"], "abort"), (T1, R["px"], 5.0)], [(T1, R["right"], 2.0)]], default_format="fits"),
     ]
     # the top-level process updates the tile itself while its children do (every updater, whatever its role, must
